@@ -36,8 +36,8 @@ class P(Prop):
     def gen_unroll(self):
         rng = self.rng
         c = gen.circuit(rng, n_in=(1, 4), n_gates=(1, 7), max_arity=3, dead=False, consts=0.1, p_out=0.5,
-                        adversarial=rng.choice([0, 0, 0.15]), out_inputs=0.0)
-        outs = sorted(c.outputs())
+                        adversarial=rng.choice([0, 0, 0.15]), out_inputs=rng.choice([0.0, 0.0, 0.4]))
+        outs = sorted(o for o in c.outputs() if c.type(o) != "input")
         ins = sorted(c.inputs())
         k = rng.randint(0, min(3, len(outs), len(ins)))
         state_io = dict(zip(rng.sample(outs, k), rng.sample(ins, k)))
@@ -74,7 +74,7 @@ class P(Prop):
             cj = c_to_json(c)
             seed = self.rng.randint(0, 5)
             flops = sorted(c.blackboxes)
-            iv = self.rng.choice([None, "0", "1", {f: self.rng.choice("01") for f in flops}])
+            iv = self.rand_iv(flops)
             afo, ru, steps = self.rng.random() < 0.5, self.rng.random() < 0.5, self.rng.randint(1, 3)
             with ordered(seed):
                 o, r = call(cg.tx.sequential_unroll, c, steps, "d", "q", ["clk"], afo, iv, ru)
@@ -130,6 +130,20 @@ class P(Prop):
                         self.fail("search", "unroll-value",
                                   f"step {t} output {o_}: unrolled {v[io_map[o_][t]]} != iterated {ref[t][o_]} (s0={s0}, seq={seq})", case)
                         return
+
+    def rand_iv(self, flops):
+        """None, a single value, or a per-flop dict in arbitrary key order, possibly partial"""
+        rng = self.rng
+        r = rng.random()
+        if r < 0.2:
+            return None
+        if r < 0.4:
+            return rng.choice("01")
+        keys = list(flops)
+        rng.shuffle(keys)
+        if len(keys) > 1 and rng.random() < 0.3:
+            keys = keys[:-1]
+        return {f: rng.choice("01") for f in keys}
 
     def gen_seq(self):
         rng = self.rng
@@ -228,7 +242,7 @@ class P(Prop):
             else:
                 c = self.gen_seq()
                 flops = sorted(c.blackboxes)
-                iv = rng.choice([None, "0", "1", {f: rng.choice("01") for f in flops}])
+                iv = self.rand_iv(flops)
                 self.check_seq(c, rng.randint(1, 4), rng.random() < 0.5, iv, rng.random() < 0.5)
             if self.too_many():
                 break
